@@ -45,6 +45,7 @@ class SpecCtx:
         self.cur_ev = None
         self.leaf_types = {}
         self.name_types = {}
+        self.pol = 1     # +1 goal position, -1 hypothesis position, 0 both
 
     def tag(self, v, t):
         if is_z3(v) and t:
@@ -86,7 +87,11 @@ class SpecCtx:
                 self.in_old = prev
         if k == "un":
             if a[1] == "!":
-                return z3.Not(to_bool(self.eval(a[2])))
+                self.pol = -self.pol
+                try:
+                    return z3.Not(to_bool(self.eval(a[2])))
+                finally:
+                    self.pol = -self.pol
             if a[1] == "-":
                 return -to_int(self.eval(a[2]))
             if a[1] == "*":
@@ -155,6 +160,9 @@ class SpecCtx:
         g = self.eng.ghost_value(self, n)
         if g is not None:
             return g
+        v = self.pkgmember(MOD, n)
+        if v is not None and (MOD + "." + n) in ir.consts:
+            return v
         raise SpecError("unbound identifier %s" % n)
 
     def pkgmember(self, pkg, n):
@@ -203,7 +211,13 @@ class SpecCtx:
         st = self.entry if self.in_old else self.st
         if op in ("&&", "||", "==>"):
             # short-circuit on concrete left operands (lets guards like count(X) >= 1 protect ret(X, i))
-            lv = to_bool(self.eval(l))
+            if op == "==>":
+                self.pol = -self.pol
+            try:
+                lv = to_bool(self.eval(l))
+            finally:
+                if op == "==>":
+                    self.pol = -self.pol
             ls = z3.simplify(lv)
             if op == "&&":
                 if z3.is_false(ls):
@@ -217,7 +231,12 @@ class SpecCtx:
                 return z3.BoolVal(True)
             return z3.Implies(lv, to_bool(self.eval(r)))
         if op == "<==>":
-            return to_bool(self.eval(l)) == to_bool(self.eval(r))
+            sp = self.pol
+            self.pol = 0
+            try:
+                return to_bool(self.eval(l)) == to_bool(self.eval(r))
+            finally:
+                self.pol = sp
         x, y = self.eval(l), self.eval(r)
         if op in ("==", "!="):
             e = self.eq(x, y)
@@ -244,6 +263,19 @@ class SpecCtx:
         if isinstance(x, tuple) and x and x[0] == "nil":
             return self.is_nil(y)
         return to_bool(st.eq(x, y))
+
+    def deep_eq(self, a, b):
+        """equality that also compares slice contents at a fresh (skolem) index: goal position only"""
+        st = self.st
+        if isinstance(a, StructV) and isinstance(b, StructV):
+            return z3.And(*[self.deep_eq(a.f[k], b.f[k]) for k in a.f])
+        if isinstance(a, SliceV) and isinstance(b, SliceV):
+            if a.seq is b.seq:
+                return a.len == b.len
+            k = z3.Const(fresh_name("k"), z3.IntSort())
+            ea, eb = st.seq_read(a.seq, k), st.seq_read(b.seq, k)
+            return z3.And(a.len == b.len, z3.Implies(z3.And(k >= 0, k < a.len), self.deep_eq(ea, eb)))
+        return to_bool(st.eq(a, b))
 
     def is_nil(self, x):
         if isinstance(x, IfaceV):
@@ -303,6 +335,22 @@ class SpecCtx:
                 if x.dyn is not None:
                     return z3.BoolVal(x.dyn[0] == T)
                 return z3.And(x.ref != NIL, dyntype(x.ref) == type_id(T))
+            if n in ("seqEq", "recEq"):
+                if self.pol != 1:
+                    raise SpecError(n + " may only be used in goal (positive) position")
+                return self.deep_eq(self.eval(args[0]), self.eval(args[1]))
+            if n in self.eng.defines:
+                params, body = self.eng.defines[n]
+                if len(params) != len(args):
+                    raise SpecError("define %s takes %d arguments" % (n, len(params)))
+                vals = [self.eval(x) for x in args]
+                saved = dict(self.bound)
+                for pn, v in zip(params, vals):
+                    self.bound[pn] = v
+                try:
+                    return self.eval(body)
+                finally:
+                    self.bound = saved
             if n == "max":
                 x, y = to_int(self.eval(args[0])), to_int(self.eval(args[1]))
                 return z3.If(x > y, x, y)
